@@ -22,8 +22,38 @@ type Finding struct {
 	Sel     string   // selector of the enclosing style rule
 }
 
+// idSignature: one stable root-cause signature per known id.
+var idSignature = map[string]string{
+	"K20": "bgpos:right-bottom-percent-aliasing",
+	"K21": "color:lightslateblue-is-not-a-css-colour",
+	"K22": "selector:case-changed",
+	"K23": "font-family:quoted-keyword-unquoted",
+	"K29": "number:decimal-carry",
+	"K40": "datauri:plus-decoded-as-space",
+	"K45": "color:transparent-rgb-lost",
+	"N01": "keepcss2:exponent-number-mangled",
+	"N02": "border-color:currentcolor-to-initial-in-list",
+	"N03": "bgpos:fractional-percent-truncated",
+	"N04": "color:hsl-number-saturation-lightness",
+	"N05": "selector:attr-flag-s-fused",
+	"N06": "fusion:comment-only-separator-dropped",
+	"N07": "datauri:payload-quote-equals-delimiter",
+	"N08": "zero-unit-dropped:angle",
+	"N09": "flex:zero-basis-unit",
+	"N10": "fusion:slash-star-opens-comment",
+	"N11": "datauri:css-escape-in-url",
+	"N12": "datauri:charset-without-type-dropped",
+	"N13": "zero-unit-dropped:math-function",
+	"N14": "background:size-minified-as-position",
+	"N15": "unicode-range:initial-in-list",
+	"N16": "bgpos:zero-removed-from-earlier-layer",
+}
+
 func (f *Finding) Signature() string {
 	if f.ID != "" {
+		if s, ok := idSignature[f.ID]; ok {
+			return f.ID + ":" + s
+		}
 		return f.ID + ":" + f.Sig
 	}
 	return f.Sig
@@ -258,6 +288,14 @@ func selAtoms(ns []Node, ctx *Ctx, inFn bool, fn string) []Atom {
 			out = append(out, a)
 		case KFunction:
 			name := asciiLower(n.T.Val)
+			if strings.HasPrefix(name, "nth-") {
+				// An+B microsyntax: whitespace is optional around the sign (css-syntax-3 section 6)
+				raw := asciiLower(stripSpaces(nodesRawNC(n.Kids)))
+				if !strings.Contains(raw, "of") {
+					out = append(out, Atom{K: 'f', S: name, Kids: []Atom{{K: 'i', S: raw}}, Nd: n, Closed: n.Closed})
+					break
+				}
+			}
 			out = append(out, Atom{K: 'f', S: name, Kids: selAtoms(n.Kids, ctx, true, name), Nd: n, Closed: n.Closed})
 		case KLBracket:
 			out = append(out, Atom{K: 'b', S: "[", Kids: attrAtoms(n.Kids), Nd: n, Closed: n.Closed})
@@ -353,6 +391,9 @@ func (c *cmp) decl(a, b *Decl) *Finding {
 		return mk("important:added", "")
 	}
 	fam := familyOf(a.Name)
+	if fam == "ms-filter" && !strings.Contains(strings.ToLower(a.RawValue), "progid") {
+		fam = "" // an ordinary filter value: judged generically
+	}
 	hk := fam
 	if hk == "" {
 		hk = "generic"
@@ -371,17 +412,12 @@ func (c *cmp) decl(a, b *Decl) *Finding {
 		}
 		ia, oa := wsAtoms(a.Nodes, c.ctx, ""), wsAtoms(b.Nodes, c.ctx, "")
 		// custom property values are never rewritten: numbers and colours must be identical text
-		if len(ia) == len(oa) {
-			same := true
-			for i := range ia {
-				if ia[i].K != oa[i].K || atomRaw(ia[i]) != atomRaw(oa[i]) {
-					same = false
-				}
-			}
-			if same {
-				c.st.Judged++
-				return nil
-			}
+		if sameTokens(ia, oa) {
+			c.st.Judged++
+			return nil
+		}
+		if _, why := atomsEq(ia, oa, c.ctx); strings.HasPrefix(why, "fusion:") {
+			return mk("custom-property:"+why, "")
 		}
 		return mk("custom-property:tokens-changed", "")
 	}
@@ -414,8 +450,37 @@ func (c *cmp) decl(a, b *Decl) *Finding {
 			c.st.NJ = append(c.st.NJ, "precision+colour-function")
 			return nil
 		}
+		if c.ctx.Prec > 0 && (fam == "bgpos" || fam == "background") && strings.Contains(fwhy, "number:value-changed") {
+			// offsets from right/bottom are rounded first and subtracted from 100% afterwards
+			c.st.NJ = append(c.st.NJ, "precision+position-arithmetic")
+			return nil
+		}
 		return mk(fam+":"+fwhy, atomsString(fi)+"  vs  "+atomsString(fo))
 	}
 	c.st.Judged++
 	return nil
+}
+
+// sameTokens: identical token text, whitespace presence included (custom properties are never rewritten).
+func sameTokens(a, b []Atom) bool {
+	if len(a) != len(b) {
+		return false
+	}
+	for i := range a {
+		if a[i].K != b[i].K {
+			return false
+		}
+		switch a[i].K {
+		case 'w':
+		case 'f', 'b':
+			if a[i].Nd.T.Raw != b[i].Nd.T.Raw || a[i].Closed != b[i].Closed || !sameTokens(a[i].Kids, b[i].Kids) {
+				return false
+			}
+		default:
+			if a[i].Nd == nil || b[i].Nd == nil || a[i].Nd.T.Raw != b[i].Nd.T.Raw {
+				return false
+			}
+		}
+	}
+	return true
 }
